@@ -102,6 +102,10 @@ func newVWWorld(r *verifkit.Rand, nLogs, maxN int, kind string) *vwWorld {
 	for i := 0; i < nLogs; i++ {
 		k := vwGenKey()
 		id, h := vwLogID(k)
+		for try := 0; try < 16 && !strings.ContainsAny(id, "+/"); try++ { // so that the ID has a URL-safe spelling that differs
+			k = vwGenKey()
+			id, h = vwLogID(k)
+		}
 		l := &vwLog{id: id, idHash: h, key: k, real: true}
 		leaves := make([][]byte, maxN)
 		for j := range leaves {
@@ -143,6 +147,10 @@ func newVWWorld(r *verifkit.Rand, nLogs, maxN int, kind string) *vwWorld {
 		}
 		i := strings.IndexByte(b64, l.id[42])
 		w.aliases = append(w.aliases, vwAlias{l.id[:42] + string(b64[i|1+r.Intn(2)*2]) + "=", l}, vwAlias{l.id + "\n", l})
+		// the URL-safe alphabet ('-' for '+', '_' for '/'): not base64.StdEncoding, so not even decodable as a log ID
+		if u := strings.NewReplacer("+", "-", "/", "_").Replace(l.id); u != l.id {
+			w.aliases = append(w.aliases, vwAlias{u, l}, vwAlias{strings.TrimRight(u, "="), l})
+		}
 	}
 	w.otherKey = uk
 	var priv, pub interface{}
